@@ -23,3 +23,12 @@ package recordstore
 //@   ensures [entry-is-that-file-and-start] err == nil && !resultof(IsDir) && resultof(Decode) && (end == nil || !((*end).ns < pa.Start.ns)) ==> segments[len(segments)-1] != nil && segments[len(segments)-1].Fpath == fpath && segments[len(segments)-1].Start.ns == pa.Start.ns
 //@   ensures [regular-files-only] called(IsDir) == b2i(err == nil) && (called(Decode) == 1 ==> !resultof(IsDir))
 //@   ensures [earlier-entries-untouched] forall(k, 0, old(len(segments)), segments[k] == old(segments[k]))
+
+// C31: segment file names carry the calendar fields of the start instant in that instant's location; the
+// recorder writes them, and Decode reads them back, in the server's local zone. A name therefore identifies
+// the instant only when it is produced from a time value located in the local zone.
+
+//@ func (p Path) Encode
+//@   property C31
+//@   safety -all
+//@   requires [start-in-local-zone] p.Start.loc == localLoc()
